@@ -799,7 +799,7 @@ theorem modifyEom_step {s : SeqState} {n : ChName} {e : EomIn}
                   if e.corr then
                     match (s2.getChan n).bind (·.slots.getLast?) with
                     | some buf =>
-                      s2.phaseShift (-((lastEomPulseDrift c1).calc buf.ti +
+                      s2.phaseShift (-((lastEomPulseDrift c1).calc (max buf.ti 0) +
                         ({ rate := -detOff, ti := c1.getDuration false } : Drift).calc buf.tf)) buf.targets c.cfg.basis
                     | none => fail s2 .noTarget
                   else done s2)
